@@ -4,7 +4,7 @@ from __future__ import annotations
 
 import ast
 
-from .facts import facts_of
+from .facts import const_int, facts_of
 from .flow import Arr, ArrSlice, Bool, Bytes, Num, Opaque, Tup, c_not, cond_atoms, conjuncts, show_cond
 from .lin import Lin, show_lin
 from .model import AnalysisError, call_name, dotted, self_attr, unparse, walk_no_nested
@@ -151,6 +151,11 @@ def rule_keyid(ctx):
         pa = F.param_attr().get(k.key, {})
         lentabs = {p: s for p, s in pa.items() if s & {"key_lens", "other.key_lens"}}
         for mnode in missing:
+            arg0 = mnode.args[0] if mnode.args else None
+            if isinstance(arg0, ast.Compare) and len(arg0.ops) == 1 and not isinstance(arg0.ops[0], ast.Eq):
+                ctx.ob("keyid", k, mnode, src(k, mnode), "a stored key is recognised by byte-wise equality with the probe", False,
+                       "the bytes are compared with `%s`, not `==`: equal keys are not recognised as equal" % type(arg0.ops[0]).__name__)
+                continue
             ctx.ob("keyid", k, mnode, src(k, mnode), "stored-key comparison feeds a decision the analysis can read", None,
                    "np.all(...) over a key table is not used directly in an if/boolean decision")
         done = set()
@@ -724,6 +729,27 @@ def rule_report(ctx):
     agg(ctx, "same-kernel", gi, rets[0].node if rets else gi.node, "return %s(...)" % k.name, "hh[key] is the reader kernel's value", res)
 
 
+def _already_listed(ev):
+    """The path decided `self.candidate_set[key] != 0` (the key is already listed): the only admissible reason, besides an empty
+    cell, for not consulting the reader kernel."""
+    for (_, _, cc) in ev.path:
+        for c in conjuncts(cc):
+            pol = True
+            while c[0] == "not":
+                c, pol = c[1], not pol
+            if c[0] == "atom" and isinstance(c[1], tuple) and c[1][0] == "cmp" and c[1][1] == "eq":
+                info = c[2] or {}
+                a, b = info.get("a"), info.get("b")
+                for x, y in ((a, b), (b, a)):
+                    xs = getattr(x, "node", None)
+                    is_cs = xs is not None and isinstance(xs, ast.Subscript) and (dotted(xs.value) or "").endswith("candidate_set")
+                    if is_cs and isinstance(y, Num) and y.lin == Lin.const(0) and pol is False:
+                        return True
+            if c[0] in ("ne",) and pol and False:
+                return True
+    return False
+
+
 def rule_skip_zero(ctx):
     """generate_candidate_set skips a cell only when its count is zero."""
     F = facts_of(ctx)
@@ -743,7 +769,7 @@ def rule_skip_zero(ctx):
         # skipped: allowed reasons: count == 0, or key already in the candidate set (counted once)
         rd = [x for x in evs if x.kind == "read" and x.arr.name == "self.lhh_count"]
         zero = any(w.P.prove_eq0(Lin.term(x.term), le.facts) for x in rd)
-        dup = (not zero) and any("candidate_set" in unparse(c[0].test) for c in le.path if c[0] in [x.node for x in evs if x.kind == "branch"])
+        dup = (not zero) and _already_listed(le)
         res.append((bool(zero or dup), "skipped because the count is zero" if zero else "skipped because the key is already a candidate" if dup else
                     "a cell with a non-zero count is skipped without consulting the reader kernel", fact_strs(le)))
     agg(ctx, "scan-all", gcs, gcs.node, "cell skip conditions in generate_candidate_set",
@@ -773,6 +799,18 @@ def _names_in(node):
 def rule_cachekey(ctx):
     F = facts_of(ctx)
     cls = ctx.model.cls(*HH)
+    # the cache a fresh sketch starts with is a valid cache of the empty sketch: recorded n_added 0, no candidates
+    defs = {}
+    for d in F.attr_defs(cls):
+        defs.setdefault(d.attr, []).append(d)
+    d0 = defs.get("n_added_sort", [])
+    okk = bool(d0) and all(const_int(d.value) == 0 for d in d0)
+    ctx.ob("cachekey", F.ctor(cls), d0[0].stmt if d0 else F.ctor(cls).node, "self.n_added_sort = 0",
+           "a fresh sketch records n_added 0 for its (empty) cache, so the first add makes it stale", okk,
+           "" if okk else "the recorded n_added of a fresh sketch is not 0: adds up to that number are answered from the empty cache")
+    d1 = defs.get("candidate_set", [])
+    okk = bool(d1) and all(isinstance(d.value, ast.Call) and (dotted(d.value.func) or "").split(".")[-1] == "Counter" and not d.value.args and not d.value.keywords for d in d1)
+    ctx.ob("cachekey", F.ctor(cls), d1[0].stmt if d1 else F.ctor(cls).node, "self.candidate_set = Counter()", "a fresh sketch starts with no candidates", okk)
     q = cls.methods.get("query")
     gcs = cls.methods.get("generate_candidate_set")
     if q is None or gcs is None:
